@@ -1,6 +1,6 @@
 (* Bvm/XBridge.v — the instrumented semantics (strict = true) and the transcription of vm.rs (strict = false) of
    Bvm/XModel.v agree until one of the extra checks fires: either the instrumented run stops with a fault that only it
-   raises (DynSignature, DynReentry, DynOpenWrite, DynCellWidth), or both runs have the same outcome. *)
+   raises (DynSignature, DynReentry, DynOpenWrite, DynCellWidth, DynElemWidth), or both runs have the same outcome. *)
 From Coq Require Import List ZArith NArith Bool Lia Arith.
 From Mimium Require Import Heap.Model.
 From Mimium Require Import Bvm.Model Bvm.XModel.
@@ -18,7 +18,7 @@ Section Bridge.
   Variable A : arith.
   Variable p : program.
 
-  Lemma xstep_agree : forall f base ci o x fl, lagree (xstep A p false f base ci o x fl) (xstep A p true f base ci o x fl).
+  Lemma xstep_agree : forall f base ci o x fl, lagree (xstep p false f base ci o x fl) (xstep p true f base ci o x fl).
   Proof.
     intros f base ci o x fl. destruct o; try (right; reflexivity); cbn [xstep].
     - (* XGetUp *)
@@ -33,6 +33,40 @@ Section Bridge.
       destruct (rd1 (c_upv cl) i) as [cell|]; [|right; reflexivity].
       destruct (nth_error (x_cells x) (nn cell)) as [[pos size isc|vs isc]|]; [|right; reflexivity|right; reflexivity].
       left. exists DynOpenWrite. auto.
+  Qed.
+
+  (* the array instructions: the instrumentation checks the element width against the annotation *)
+  Lemma xgetarr_agree : forall hint base d ar i x fl,
+    lagree (xgetarr A false hint base d ar i x fl) (xgetarr A true hint base d ar i x fl).
+  Proof.
+    intros hint base d ar i x fl. unfold xgetarr.
+    destruct (xsget base x ar); [|right; reflexivity]. destruct (xsget base x i); [|right; reflexivity].
+    destruct (arr_get (x_arr x) z) as [adata|]; [|right; reflexivity].
+    destruct (arr_len adata) as [len|]; [|right; reflexivity].
+    change (ew_ok false hint (ar_ew adata)) with true. cbn [negb].
+    destruct (ew_ok true hint (ar_ew adata)); cbn [negb]; [right; reflexivity|left; exists DynElemWidth; auto].
+  Qed.
+
+  Lemma xsetarr_agree : forall hint base ar i v x fl,
+    lagree (xsetarr A false hint base ar i v x fl) (xsetarr A true hint base ar i v x fl).
+  Proof.
+    intros hint base ar i v x fl. unfold xsetarr.
+    destruct (xsget base x ar); [|right; reflexivity]. destruct (xsget base x i); [|right; reflexivity].
+    destruct (arr_get (x_arr x) z) as [adata|]; [|right; reflexivity].
+    destruct (arr_len adata) as [len|]; [|right; reflexivity].
+    change (ew_ok false hint (ar_ew adata)) with true. cbn [negb].
+    destruct (ew_ok true hint (ar_ew adata)); cbn [negb]; [right; reflexivity|left; exists DynElemWidth; auto].
+  Qed.
+
+  (* CallExtFun: only the unspecialised split_head / split_tail are instrumented *)
+  Lemma xextcall_agree : forall f base fr nargs nret x fl,
+    lagree (xextcall A p false f base fr nargs nret x fl) (xextcall A p true f base fr nargs nret x fl).
+  Proof.
+    intros f base fr nargs nret x fl. unfold xextcall. destruct (xsget base x fr) as [iv|]; [|right; reflexivity].
+    destruct (rd1 (p_ext p) (Z.to_N iv)) as [[code arity| |op ew|]|]; try (right; reflexivity).
+    destruct ((nargs =? 0) || (base + fr + 1 + nargs <=? lenN (x_stack x))); [|right; reflexivity].
+    unfold arr_builtin. cbn [andb].
+    destruct (arr_width_bad op (x_stack x) (base + fr + 1) (x_arr x)); cbn [andb]; [left; exists DynElemWidth; auto|right; reflexivity].
   Qed.
 
   Lemma strict_ok_only : forall x g c nargs nret d, strict_ok p true x g c nargs nret = Some d -> strict_only d = true.
@@ -95,10 +129,12 @@ Section Bridge.
     { intros. apply xcall_agree; intros; apply IH. }
     destruct (xdecode i) as [u|d fr|s|fr nargs nret|d fr|s|s|fr nargs nret|d iu|iu s n|d s n|d s n|s|s|d s n|d l e|d ar ix|ar ix v];
       try (apply Hcont; apply xstep_agree).
-    - destruct u; try (apply Hcont; right; reflexivity); try (right; reflexivity).
+    - destruct u; try (apply Hcont; apply xextcall_agree); try (apply Hcont; right; reflexivity); try (right; reflexivity).
       destruct (xsget base x f0); [apply Hcall|right; reflexivity].
     - destruct (xsget base x fr); [|right; reflexivity]. apply xicall_agree. intros; apply Hcall.
     - destruct (xsget base x fr); [|right; reflexivity]. apply xicall_agree. intros; apply Hcall.
+    - apply Hcont. apply xgetarr_agree.
+    - apply Hcont. apply xsetarr_agree.
   Qed.
 
   Theorem xexec_dsp_agree : forall fuel inputs x, agree (xexec_dsp A p false fuel inputs x) (xexec_dsp A p true fuel inputs x).
